@@ -162,7 +162,11 @@ class BodyMixin:
             b = self._get_body_string()
             if not b:
                 return None
-            return json_mod.loads(b)
+            try:
+                return json_mod.loads(b)
+            except (ValueError, RecursionError) as exc:
+                # invalid JSON / not UTF-8 / nested too deeply
+                self._raise(RequestError(f'Invalid JSON: {exc}'), RequestError)
         return None
 
     @cache_in('environ[ ombott.request.post ]', read_only=True)
@@ -181,7 +185,9 @@ class BodyMixin:
         ctype = self.content_type
         if not ctype.startswith('multipart/'):
             if ctype.startswith('application/json'):
-                post.update(self.json)
+                json = self.json
+                if isinstance(json, dict):  # only a JSON object maps to form fields
+                    post.update(json)
             else:
                 parse_qsl(
                     touni(self._get_body_string(), 'latin1'),
